@@ -446,7 +446,7 @@ public:
     virtual Matrix eigenvectors(Index nvec) const
     {
         const Index nconv = m_ritz_conv.count();
-        nvec = (std::min)(nvec, nconv);
+        nvec = (std::max)(Index(0), (std::min)(nvec, nconv));
         Matrix res(m_n, nvec);
 
         if (!nvec)
